@@ -841,6 +841,15 @@ def c20(ctx):
         rec["ok"] = not rec["ok"]
 
     ctx.negctl_replay(["versions-replay"], vs["_first_edge"], vwrong)
+    if deep:
+        ctx.tlaps_check("VersionsProofs.tla", needs=("Versions.tla",), abstract_ops=False,
+                        label="TLAPS: version matching is an equivalence on all strings and looks at two parts; the "
+                              "built-in protocol is never lost")
+        n = ctx.tlaps_check("RegistryProofs.tla", needs=("Registry.tla",), abstract_ops=False,
+                            label="TLAPS: IndInv inductive => MutualExclusion, MapIsSpec, LookupSeesSpec for any number "
+                                  "of processes, keys, values and calls")
+        ctx.assumptions.append("TLAPS proof (%d obligations) is about the lock protocol of Registry.tla; the code is bound "
+                               "to it by linearizability checking of recorded histories and the race detector" % n)
     ov = {"Procs": "{1, 2, 3}", "MaxCalls": 1} if ctx.tier == "quick" else {"Procs": "{1, 2, 3}", "MaxCalls": 2}
     ctx.tlc_check("Registry.tla", "MC_Registry.cfg", overrides=ov, label="registry model, all interleavings", timeout=3000)
     if ctx.tier == "quick":
